@@ -1001,6 +1001,9 @@ def run_property(pid, tier):
     if pid == "C19":
         import wrapchecks
         return wrapchecks.run_c19(tier)
+    if pid == "C20":
+        import wrapchecks
+        return wrapchecks.run_c20(tier)
     if pid not in SHUTTLE_PROPS:
         raise vlib.ToolError(f"no check registered for {pid}")
     t0 = time.time()
@@ -1101,6 +1104,15 @@ def replay(path):
     if "prog" not in pr:
         print(json.dumps(pr, indent=1))
         return 2
+    if d.get("wrapper"):
+        import wrapchecks
+        vlib.build_wrap()
+        module = "TraceLocks" if pr["prog"].get("lang") == "locks" else "TraceTokio"
+        r = wrapchecks.pipeline(pr["prog"].get("fam", "replay"), [pr["prog"]], os.path.join(vlib.WORK, "replay-wrap"), module, cap=200000)
+        print(json.dumps(r["summary"]))
+        for v in r["problems"]:
+            print(wrapchecks.fmt_problem(v))
+        return 1 if r["problems"] else 0
     vlib.build_harness()
     out = os.path.join(vlib.WORK, "replay-run")
     r = family_pipeline(pr["prog"].get("fam", "replay"), [pr["prog"]], out, cap=200000, do_mc=True)
